@@ -556,9 +556,9 @@ func checkC18() fw.Check {
 		MinNontrivial: 25,
 		Assumptions:   []string{"the cache is replaced by a janitor-less instance stamped with the bubble clock", "get-or-compute atomicity is not part of the property (two concurrent misses may both query)", "Linux build"},
 		Gen: func(tier string, seed int64) []fw.Case {
-			n := 60
+			n := 120
 			if tier == "thorough" {
-				n = 1200
+				n = 4000
 			}
 			var cases []fw.Case
 			for i := 0; i < n; i++ {
